@@ -555,7 +555,7 @@ func checkFailureChainRepair(c *Ctx, res *report.Result, f *ssa.Function) {
 	for _, b := range f.Blocks {
 		for _, ins := range b.Instrs {
 			ret, ok := ins.(*ssa.Return)
-			if !ok || flow.IsNilConst(ret.Results[1]) {
+			if !ok || flow.IsNilConst(flow.Ret(ret)[1]) {
 				continue
 			}
 			for _, g := range flow.NormGuards(flow.Guards(b)) {
